@@ -78,51 +78,36 @@ func init() {
 	})
 }
 
-// parserOperatorTokens: token types passed to p.match in parser functions that build nodeType.
+// parserOperatorTokens: token types matched on successful parse paths that build a node of the given kind
+// (read off the explored parser model, so helper functions and method values are looked through).
 func parserOperatorTokens(p *Prog, nodeType string) map[int64]bool {
 	out := map[int64]bool{}
-	for _, fn := range p.ModuleFuncs() {
-		if fnPkgName(fn) != "parser" {
-			continue
-		}
-		builds := false
-		instrsOf(fn, func(in ssa.Instruction) {
-			if al, ok := in.(*ssa.Alloc); ok && typeStr(derefT(al.Type())) == nodeType {
-				builds = true
+	kind := strings.TrimPrefix(nodeType, "ast.")
+	pi := getParser(p)
+	names := p.tokenNames()
+	byName := map[string]int64{}
+	for v, n := range names {
+		byName[n] = v
+	}
+	for _, name := range pi.Names {
+		for _, pth := range successPaths(pi.Models[name]) {
+			builds := false
+			for _, n := range pth.nodes {
+				if n.kind == kind {
+					builds = true
+				}
 			}
-		})
-		if !builds {
-			continue
-		}
-		instrsOf(fn, func(in ssa.Instruction) {
-			call, ok := in.(*ssa.Call)
-			if !ok {
-				return
+			if !builds {
+				continue
 			}
-			c := call.Call.StaticCallee()
-			if c == nil || c.Name() != "match" || len(call.Call.Args) < 2 {
-				return
-			}
-			sl, ok := call.Call.Args[1].(*ssa.Slice)
-			if !ok {
-				return
-			}
-			al, ok := sl.X.(*ssa.Alloc)
-			if !ok {
-				return
-			}
-			for _, r := range *al.Referrers() {
-				if ia, ok := r.(*ssa.IndexAddr); ok {
-					for _, r2 := range *ia.Referrers() {
-						if st, ok := r2.(*ssa.Store); ok {
-							if k, ok := constInt(st.Val); ok {
-								out[k] = true
-							}
-						}
+			for _, set := range pth.matches {
+				for _, t := range strings.Split(set, ",") {
+					if v, ok := byName[t]; ok {
+						out[v] = true
 					}
 				}
 			}
-		})
+		}
 	}
 	return out
 }
